@@ -527,6 +527,10 @@ static int op_musig_history(void) {
             else if (!strcmp(m, "gennullpub")) { ret = secp256k1_musig_nonce_gen(CTX, &slot[s], NULL, rnd, A(0)->b, &pk, msg, &cache, NULL); wiped = all_zero(rnd, 32); }
             else if (!strcmp(m, "genctr")) ret = secp256k1_musig_nonce_gen_counter(CTX, &slot[s], &pn, cnt, &kp, msg, &cache, NULL);
             else if (!strcmp(m, "genctrbadkp")) ret = secp256k1_musig_nonce_gen_counter(CTX, &slot[s], &pn, cnt, &kpzero, msg, &cache, NULL);
+            else if (!strcmp(m, "genctrzerosec") || !strcmp(m, "genctrovfsec")) {   /* keypair bytes crafted: secret half invalid, public half intact */
+                secp256k1_keypair kpb = kp; memset(&kpb.data[0], m[6] == 'z' ? 0x00 : 0xff, 32);
+                ret = secp256k1_musig_nonce_gen_counter(CTX, &slot[s], &pn, cnt, &kpb, msg, &cache, NULL);
+            }
             else return -1;
             ill = g_illegal;
         } else return -1;
